@@ -35,3 +35,25 @@ Proof. vm_compute. split; reflexivity. Qed.
 Print Assumptions C10_client.
 Print Assumptions C10_server.
 Print Assumptions C10_unchanged.
+
+(* ---- the monitor of the correspondence harness, as a theorem about the model -----------------
+   `mon_C10` (Corr/CorrPipeline.v): client dry-run sends no request and leaves the cluster equal
+   to the initial one; server dry-run sends only server-side-apply patches with the dry-run
+   directive; in both, unless the stream holds an error event, every object of every apply/prune
+   group of the plan has exactly one result event.  Hypothesis: `WF sc c0` of Properties/C01.v,
+   of which only the first clause (`locals_nodup sc`) is used - needed for "exactly one". *)
+From CliUtils Require Import Corr.CorrPipeline Proofs.PipelineOrphansRun Proofs.PipelineMonBase
+     Proofs.PipelineMonC10 Proofs.PipelineMonPack.
+
+Theorem C10_monitor : forall sc c0, WF sc c0 -> mon_C10 sc c0 (run sc c0) = true.
+Proof. intros sc c0 W. exact (monitor_C10 sc c0 (WF_locals_nodup sc c0 W)). Qed.
+
+Theorem C10_monitor_nodup : forall sc c0, locals_nodup sc -> mon_C10 sc c0 (run sc c0) = true.
+Proof. exact monitor_C10. Qed.
+
+Theorem C10_monitor_needs_nodup : exists sc c0, ~ locals_nodup sc /\ mon_C10 sc c0 (run sc c0) = false.
+Proof. exists dup_sc, dup_c0. split; [exact (proj1 monitor_dup_refuted)|exact (proj2 (proj2 monitor_dup_refuted))]. Qed.
+
+Print Assumptions C10_monitor.
+Print Assumptions C10_monitor_nodup.
+Print Assumptions C10_monitor_needs_nodup.
